@@ -10,6 +10,8 @@ def start(pid, tier, explanation, configs, **kw):
     for c in configs:
         fx[c] = F.load(c)
         run.configs.append(c)
+        if fx[c].relocated:
+            run.notes.append("%s: items found under another module path than in the reference tree, analysed under their reference path: %s" % (c, dict(sorted(fx[c].relocated.items())[:12])))
     return run, fx
 
 
